@@ -361,4 +361,65 @@ theorem eq_maxHeights (hs : Tid → Val) (N : Nat) (x : Val) (hub : ∀ t, t < N
     · rw [h]; exact Nat.zero_le _
     · rw [he]; exact hub t ht
 
+/-! ## Channel hand-off (`asyncSolidCache.FetchZ` → `Scan`) -/
+
+structure HandInv (v : Val) (c : Config) : Prop where
+  pc0 : (c.thr 0).pc ≤ 2
+  pc1 : (c.thr 1).pc ≤ 2
+  early : (c.thr 0).pc < 2 → c.chan CH = [] ∧ (c.thr 1).pc = 0
+  written : 1 ≤ (c.thr 0).pc → c.mem BUF = v
+  got : (c.thr 1).pc = 2 → (c.thr 1).out = v
+  wr_tid : ∀ a ∈ c.hist, a.isWrite = true → a.tid = 0
+  rd_tid : ∀ a ∈ c.hist, a.isWrite = false → a.tid = 1
+  rd_late : ∀ a ∈ c.hist, a.isWrite = false → (c.thr 1).pc = 2
+  wr_self : ∀ a ∈ c.hist, a.isWrite = true → a.eid ∈ (c.thr 0).seen
+  in_msg : ∀ m ∈ c.chan CH, ∀ a ∈ c.hist, a.isWrite = true → a.eid ∈ m.2
+  recvd : 1 ≤ (c.thr 1).pc → ∀ a ∈ c.hist, a.isWrite = true → a.eid ∈ (c.thr 1).seen
+  norace : c.races = []
+
+theorem handInv_init (v : Val) : HandInv v Config.init := by
+  constructor <;> simp [Config.init, TState.init]
+
+theorem handInv_step (v : Val) (c : Config) (t : Tid) (I : HandInv v c) : HandInv v (step (handoffProg v) c t) := by
+  obtain ⟨i1, i2, i3, i4, i5, i6, i7, i8, i9, i10, i11, i12⟩ := I
+  simp only [BUF, CH] at *
+  by_cases h0 : t = 0
+  · subst h0
+    obtain h | h | h : (c.thr 0).pc = 0 ∨ (c.thr 0).pc = 1 ∨ (c.thr 0).pc = 2 := by omega
+    · simp only [step, handoffProg, if_true, h, List.getElem?_cons_zero, exec, advance, access]
+      constructor <;>
+        (try simp only [upd, unordered, BUF, CH, List.mem_cons, List.append_eq_nil_iff, List.map_eq_nil_iff,
+          List.filter_eq_nil_iff]) <;> grind
+    · simp only [step, handoffProg, if_true, h, List.getElem?_cons_succ, List.getElem?_cons_zero, exec, advance]
+      constructor <;>
+        (try simp only [upd, BUF, CH, List.mem_append, List.mem_singleton]) <;> grind
+    · simp only [step, handoffProg, if_true, h]
+      exact ⟨i1, i2, i3, i4, i5, i6, i7, i8, i9, i10, i11, i12⟩
+  · by_cases h1 : t = 1
+    · subst h1
+      obtain h | h | h : (c.thr 1).pc = 0 ∨ (c.thr 1).pc = 1 ∨ (c.thr 1).pc = 2 := by omega
+      · simp only [step, handoffProg, h0, if_false, if_true, h, List.getElem?_cons_zero, exec, CH]
+        cases hc : c.chan 0 with
+        | nil => simp only []; exact ⟨i1, i2, i3, i4, i5, i6, i7, i8, i9, i10, i11, i12⟩
+        | cons m rest =>
+          obtain ⟨mv, ms⟩ := m
+          simp only [advance]
+          constructor <;>
+            (try simp only [upd, BUF, CH, List.mem_append, List.mem_cons]) <;> grind
+      · simp only [step, handoffProg, h0, if_false, if_true, h, List.getElem?_cons_succ, List.getElem?_cons_zero,
+          exec, advance, access, BUF]
+        constructor <;>
+          (try simp only [upd, unordered, BUF, CH, List.mem_cons, List.append_eq_nil_iff, List.map_eq_nil_iff,
+            List.filter_eq_nil_iff]) <;> grind
+      · simp only [step, handoffProg, h0, if_false, if_true, h]
+        exact ⟨i1, i2, i3, i4, i5, i6, i7, i8, i9, i10, i11, i12⟩
+    · simp only [step, handoffProg, h0, h1, if_false, List.getElem?_nil]
+      exact ⟨i1, i2, i3, i4, i5, i6, i7, i8, i9, i10, i11, i12⟩
+
+theorem handInv_run (v : Val) (c : Config) (sched : Schedule) (I : HandInv v c) :
+    HandInv v (run (handoffProg v) c sched) := by
+  induction sched generalizing c with
+  | nil => exact I
+  | cons t s ih => exact ih _ (handInv_step v c t I)
+
 end M3d.Conc
